@@ -11,6 +11,7 @@ Definition c15_parse (s : str) : outcome tstruct := parse_type_structure_b s.
 Definition c15_names (s : str) : outcome (list str) := names_b s.
 Definition c15_prefix (s : str) : outcome str := prefix_b s.
 Definition c15_apply (r : rule) (s : str) : outcome str := naming_b r s.
+Definition c15_default_case (configured s : str) : outcome str := default_case_b configured s.
 Definition c15_event_fn (s : str) : outcome str := event_fn_b s.
 Definition c15_variant (r : rule) (s : str) : outcome str := variant_b r s.
 Definition c15_emit_select (emit_to : bool) (n : nat) : outcome (option (nat * nat)) := emit_select emit_to (seq 0 n).
@@ -21,4 +22,4 @@ Definition c15_no_panic {A} (o : outcome A) : bool := returned o.
 
 Extraction Language OCaml.
 Extraction "tt_c15.ml" c15_utf8 c15_validator c15_serde c15_rule_of_str c15_parse c15_names c15_prefix
-  c15_apply c15_event_fn c15_variant c15_emit_select c15_attr_is_command c15_tauri_param c15_no_panic.
+  c15_apply c15_default_case c15_event_fn c15_variant c15_emit_select c15_attr_is_command c15_tauri_param c15_no_panic.
